@@ -28,7 +28,7 @@ pub fn def() -> CheckDef {
 }
 
 fn info(tier: Tier) -> CheckInfo {
-    CheckInfo {
+    let mut ci = CheckInfo {
         id: "C08",
         level: "model_checking",
         rule: format!(
@@ -40,7 +40,9 @@ fn info(tier: Tier) -> CheckInfo {
             "built like a release build of the crate (no overflow checks)".into(),
             "endpoint replies faster than 500 ms count as in time (the request timeout never drops below 500 ms)".into(),
         ],
-    }
+    };
+    ci.rule.push_str(" Added: a put in its store phase crossed with another lookup of the same target ending with tokens / without / errors only / silence; the main matrix also through the blocking Dht::put.");
+    ci
 }
 
 #[derive(Clone, Copy, Debug, PartialEq, Eq)]
